@@ -649,3 +649,19 @@ SILENT += [
       ("    return float(Decimal(str(float1)) + Decimal(str(float2)))", "    a, b = _to_decimal(float1), _to_decimal(float2)\n    return float(a + b)")],
      None, ["C17", "C04", "C03"]),
 ]
+
+# ---- round 6 twins
+SILENT += [
+    # the seeded idea done right: centre the series on a COPY (a fresh array), the variance does not change
+    ("r6-var-centred-on-a-copy", "jesse/indicators/var.py",
+     "    source = get_candle_source(candles, source_type=source_type)\n    n = len(source)",
+     "    source = get_candle_source(candles, source_type=source_type)\n    source = source - source[0]\n    n = len(source)", ["C15", "C14", "C13"]),
+    # a memo of the derived sources keyed by the whole content of the window
+    ("r6-derived-source-memo-by-content", "jesse/helpers.py",
+     [("def get_candle_source(candles: np.ndarray, source_type: str = \"close\") -> np.ndarray:",
+       "_SOURCE_MEMO = {}\n\n\ndef _hl2(candles: np.ndarray) -> np.ndarray:\n    key = candles.tobytes()\n    if key not in _SOURCE_MEMO:\n"
+       "        if len(_SOURCE_MEMO) > 64:\n            _SOURCE_MEMO.clear()\n        _SOURCE_MEMO[key] = (candles[:, 3] + candles[:, 4]) / 2\n    return _SOURCE_MEMO[key].copy()\n\n\n"
+       "def get_candle_source(candles: np.ndarray, source_type: str = \"close\") -> np.ndarray:"),
+      ("    elif source_type == \"hl2\":\n        return (candles[:, 3] + candles[:, 4]) / 2", "    elif source_type == \"hl2\":\n        return _hl2(candles)")],
+     None, ["C14", "C13"]),
+]
